@@ -506,6 +506,8 @@ const PREFIXES: &[(&str, u32)] = &[("", 0), ("!", 1), ("!!", 2)];
 struct CondCase {
     text: String,
     toks: Vec<CTok>,
+    /// the same condition under an empty macro table (M undefined as well); None when no operand depends on the table
+    toks_empty: Option<Vec<CTok>>,
 }
 
 /// operand (op operand){n}, optional prefixes, every contiguous parenthesised group
@@ -513,6 +515,8 @@ fn build_cond(operands: &[(&str, u64)], ids: &[u64], n_ops: usize, with_prefix: 
     // ids layout: [operand0, (prefix0)?, op1, operand1, (prefix1)? ...]
     let mut text = String::new();
     let mut toks = Vec::new();
+    let mut vals_empty: Vec<(usize, u64)> = Vec::new();
+    let mut table_dependent = false;
     let mut k = 0;
     for i in 0..=n_ops {
         if i > 0 {
@@ -540,6 +544,10 @@ fn build_cond(operands: &[(&str, u64)], ids: &[u64], n_ops: usize, with_prefix: 
         let (s, v) = operands[ids[k] as usize];
         k += 1;
         text.push_str(s);
+        if s.contains("defined") || s == "M" {
+            table_dependent = true;
+        }
+        vals_empty.push((toks.len(), if s == "M" || s == "defined(M)" { 0 } else { v }));
         toks.push(CTok::Num(v));
         if let Some((_, b)) = group {
             if b == i {
@@ -548,25 +556,43 @@ fn build_cond(operands: &[(&str, u64)], ids: &[u64], n_ops: usize, with_prefix: 
             }
         }
     }
-    CondCase { text, toks }
+    let toks_empty = if table_dependent {
+        let mut t = toks.clone();
+        for (i, v) in vals_empty {
+            t[i] = CTok::Num(v);
+        }
+        Some(t)
+    } else {
+        None
+    };
+    CondCase { text, toks, toks_empty }
 }
 
 fn check_cond(c: &CondCase, acc: &mut Acc) {
+    check_cond_env(c, &c.toks, "#define M 2", "kind: cond", acc);
+    if let Some(t) = &c.toks_empty {
+        // nothing at all is defined: the macro table is empty when the condition is evaluated
+        check_cond_env(c, t, "", "kind: cond-empty-table", acc);
+    }
+}
+
+fn check_cond_env(c: &CondCase, toks: &[CTok], first_line: &str, kind: &str, acc: &mut Acc) {
     acc.evals += 1;
-    let want = match ref_eval(&c.toks) {
+    let want = match ref_eval(toks) {
         Some(v) => v != 0,
         None => {
             acc.count("machinery_reference_parse_failed");
             return;
         }
     };
-    let src = format!("#define M 2\n#if {}\nt1;\n#else\nt3;\n#endif\n", c.text);
-    let replay = format!("kind: cond\n{}", c.text);
+    let src = format!("{}\n#if {}\nt1;\n#else\nt3;\n#endif\n", first_line, c.text);
+    let replay = format!("{}\n{}", kind, c.text);
+    let shown = if first_line.is_empty() { format!("#if {} (empty macro table)", c.text) } else { format!("#if {}", c.text) };
     match run_real_text_nodefine(&src) {
-        Err(p) => acc.violation(Violation { signature: p.signature(), detail: format!("#if {} panicked: {}", c.text, p.message), replay }),
+        Err(p) => acc.violation(Violation { signature: p.signature(), detail: format!("{} panicked: {}", shown, p.message), replay }),
         Ok(Err(e)) => acc.violation(Violation {
             signature: "condexpr|well-formed-rejected".into(),
-            detail: format!("#if {} rejected: {:?}", c.text, e),
+            detail: format!("{} rejected: {:?}", shown, e),
             replay,
         }),
         Ok(Ok(lines)) => {
@@ -575,11 +601,11 @@ fn check_cond(c: &CondCase, acc: &mut Acc) {
             if !(got || got_else) || got != want {
                 acc.violation(Violation {
                     signature: "condexpr|wrong-value".into(),
-                    detail: format!("#if {} selected lines {:?}; reference value over u64 is {}", c.text, lines, want),
+                    detail: format!("{} selected lines {:?}; reference value over u64 is {}", shown, lines, want),
                     replay,
                 });
             } else {
-                acc.outcome(&(c.toks.iter().map(|t| format!("{:?}", t)).collect::<Vec<_>>().join(" "), want));
+                acc.outcome(&(first_line.is_empty(), toks.iter().map(|t| format!("{:?}", t)).collect::<Vec<_>>().join(" "), want));
             }
         }
     }
@@ -939,7 +965,8 @@ pub fn replay(ctx: &Ctx, body: &str) -> i32 {
                 }
             }
         }
-        "kind: cond" => {
+        kk @ ("kind: cond" | "kind: cond-empty-table") => {
+            let empty = kk == "kind: cond-empty-table";
             // re-tokenise the text with the reference tokenizer
             let text = rest.trim();
             let mut toks = Vec::new();
@@ -960,7 +987,7 @@ pub fn replay(ctx: &Ctx, body: &str) -> i32 {
                 }
                 if w == "defined" {
                     let n = it.next().unwrap_or("");
-                    toks.push(CTok::Num((n == "M") as u64));
+                    toks.push(CTok::Num((n == "M" && !empty) as u64));
                     continue;
                 }
                 if let Some((_, t)) = OPS.iter().find(|(s, _)| *s == w) {
@@ -969,14 +996,19 @@ pub fn replay(ctx: &Ctx, body: &str) -> i32 {
                     toks.push(CTok::LP);
                 } else if w == ")" {
                     toks.push(CTok::RP);
-                } else if let Some((_, v)) = OPERANDS.iter().find(|(s, _)| *s == w) {
-                    toks.push(CTok::Num(*v));
+                } else if let Some((s, v)) = OPERANDS.iter().find(|(s, _)| *s == w) {
+                    toks.push(CTok::Num(if empty && (*s == "M" || *s == "defined(M)") { 0 } else { *v }));
                 } else {
                     eprintln!("machinery error: cannot re-tokenise {:?}", w);
                     return 2;
                 }
             }
-            check_cond(&CondCase { text: text.to_string(), toks }, &mut acc);
+            let c = CondCase { text: text.to_string(), toks: toks.clone(), toks_empty: None };
+            if empty {
+                check_cond_env(&c, &toks, "", kk, &mut acc);
+            } else {
+                check_cond_env(&c, &toks, "#define M 2", kk, &mut acc);
+            }
         }
         k => {
             eprintln!("machinery error: unknown replay kind {:?}", k);
